@@ -273,6 +273,61 @@ func dateConstraintTable(p *load.Prog) (bool, string) {
 			}
 		}
 	}
+	if minDim < 0 {
+		// the matcher table is a package variable: its literal is built in the package initialiser
+		var gl *ssa.Global
+		for _, b := range eq.Blocks {
+			for _, ins := range b.Instrs {
+				if ld, ok := ins.(*ssa.UnOp); ok && ld.Op == token.MUL {
+					if g, isG := ld.X.(*ssa.Global); isG {
+						if sl, isSl := g.Type().(*types.Pointer).Elem().Underlying().(*types.Slice); isSl {
+							if _, isSl2 := sl.Elem().Underlying().(*types.Slice); isSl2 {
+								gl = g
+							}
+						}
+					}
+				}
+			}
+		}
+		if gl != nil {
+			rowT := gl.Type().(*types.Pointer).Elem().Underlying().(*types.Slice).Elem()
+			cellT := rowT.Underlying().(*types.Slice).Elem()
+			if initFn := p.SSAPkg[load.PkgRoot].Func("init"); initFn != nil {
+				// the global must be stored exactly once (never reassigned with another table)
+				storeSet := map[ssa.Instruction]bool{}
+				for _, fn := range p.Repo {
+					for _, b := range fn.Blocks {
+						for _, ins := range b.Instrs {
+							if st, ok := ins.(*ssa.Store); ok && st.Addr == ssa.Value(gl) {
+								storeSet[st] = true
+							}
+						}
+					}
+				}
+				for _, b := range initFn.Blocks {
+					for _, ins := range b.Instrs {
+						if st, ok := ins.(*ssa.Store); ok && st.Addr == ssa.Value(gl) {
+							storeSet[st] = true
+						}
+						al, ok := ins.(*ssa.Alloc)
+						if !ok {
+							continue
+						}
+						at, ok := al.Type().(*types.Pointer).Elem().Underlying().(*types.Array)
+						if !ok || !(types.Identical(at.Elem(), rowT) || types.Identical(at.Elem(), cellT)) {
+							continue
+						}
+						if minDim < 0 || at.Len() < minDim {
+							minDim = at.Len()
+						}
+					}
+				}
+				if len(storeSet) != 1 {
+					return false, fmt.Sprintf("the matcher table %s is assigned %d times", gl.Name(), len(storeSet))
+				}
+			}
+		}
+	}
 	if maxC < 0 || minDim < 0 {
 		return false, "cannot read the DateConstraint constants or the dimensions of the matcher table"
 	}
@@ -645,7 +700,23 @@ func (c *e1ctx) nodesTag(v ssa.Value, depth int) *ssa.Global {
 	switch x := v.(type) {
 	case *ssa.Call:
 		if su.CalleeIs(&x.Call, load.PkgRoot, "NodesWithTag") && len(x.Call.Args) == 2 {
-			return su.GlobalLoaded(x.Call.Args[1])
+			if g := su.GlobalLoaded(x.Call.Args[1]); g != nil {
+				return g
+			}
+			// the tag is an element of a constant list of tags returned by a helper (FamilySearchIDNodeTags()): every tag
+			// of the list must be registered for the same kind; the first one stands for all
+			if gs := tagListGlobals(x.Call.Args[1]); len(gs) > 0 {
+				first := c.reg[gs[0]]
+				if first == nil {
+					return nil
+				}
+				for _, g := range gs[1:] {
+					if c.reg[g] != first {
+						return nil
+					}
+				}
+				return gs[0]
+			}
 		}
 	case *ssa.Phi:
 		var g *ssa.Global
@@ -1935,4 +2006,63 @@ func ruleSplitFirst(s *e1.Site) (string, bool) {
 		return "", false
 	}
 	return "R-split: first element of strings.Split with a non-empty constant separator (never an empty slice)", true
+}
+
+// tagListGlobals: v is an element (range or index) of the slice returned by a repository function whose only return
+// is a slice literal of loads of package-level tag variables; returns those variables.
+func tagListGlobals(v ssa.Value) []*ssa.Global {
+	ld, ok := su.Strip(v).(*ssa.UnOp)
+	if !ok || ld.Op != token.MUL {
+		return nil
+	}
+	ia, ok := ld.X.(*ssa.IndexAddr)
+	if !ok {
+		return nil
+	}
+	c, ok := ia.X.(*ssa.Call)
+	if !ok {
+		return nil
+	}
+	cal := c.Call.StaticCallee()
+	if cal == nil || len(cal.Blocks) != 1 || len(c.Call.Args) != 0 {
+		return nil
+	}
+	ret, ok := cal.Blocks[0].Instrs[len(cal.Blocks[0].Instrs)-1].(*ssa.Return)
+	if !ok || len(ret.Results) != 1 {
+		return nil
+	}
+	sl, ok := ret.Results[0].(*ssa.Slice)
+	if !ok || sl.Low != nil || sl.High != nil {
+		return nil
+	}
+	al, ok := sl.X.(*ssa.Alloc)
+	if !ok {
+		return nil
+	}
+	at, ok := al.Type().(*types.Pointer).Elem().Underlying().(*types.Array)
+	if !ok {
+		return nil
+	}
+	var out []*ssa.Global
+	for _, ref := range *al.Referrers() {
+		ea, ok := ref.(*ssa.IndexAddr)
+		if !ok {
+			continue
+		}
+		for _, r2 := range *ea.Referrers() {
+			st, ok := r2.(*ssa.Store)
+			if !ok || st.Addr != ssa.Value(ea) {
+				continue
+			}
+			g := su.GlobalLoaded(st.Val)
+			if g == nil {
+				return nil
+			}
+			out = append(out, g)
+		}
+	}
+	if int64(len(out)) != at.Len() {
+		return nil
+	}
+	return out
 }
